@@ -117,6 +117,35 @@ type Component interface {
 	Class(c Case, implOut []string) string
 }
 
+// Deriver is implemented by components whose model requests depend on what the implementation did (clock readings,
+// generated ids, …): after Impl, extra requests for the driver are derived together with the implementation's answers.
+type Deriver interface {
+	Derive(c Case, implOut []string) (ops []Op, impl []string)
+}
+
+// expand runs the implementation and returns all request lines and the implementation's answers (base + derived).
+func expand(comp Component, c Case) (lines []string, impl []string, base []string) {
+	base = safeImpl(comp, c)
+	lines = c.Lines()
+	impl = append([]string{}, base...)
+	if d, ok := comp.(Deriver); ok {
+		func() {
+			defer func() {
+				if r := recover(); r != nil {
+					lines = append(lines, "derive-panicked")
+					impl = append(impl, fmt.Sprint("derive panic: ", r))
+				}
+			}()
+			ops, extra := d.Derive(c, base)
+			for _, o := range ops {
+				lines = append(lines, o.Line())
+			}
+			impl = append(impl, extra...)
+		}()
+	}
+	return lines, impl, base
+}
+
 // safeImpl runs Impl and turns a panic that escaped the component's own recover into a response.
 func safeImpl(comp Component, c Case) (out []string) {
 	defer func() {
@@ -212,6 +241,7 @@ type Mismatch struct {
 	Impl      []string `json:"impl"`
 	Model     []string `json:"model,omitempty"`
 	Why       string   `json:"why"`
+	Requests  []string `json:"requests,omitempty"`
 }
 
 type Summary struct {
@@ -225,6 +255,21 @@ type Summary struct {
 	Mismatches  []Mismatch     `json:"mismatches"`
 	DriverUsed  bool           `json:"driver_used"`
 	Notes       []string       `json:"notes,omitempty"`
+}
+
+func truncLines(l []string) []string {
+	out := make([]string, 0, len(l))
+	for i, s := range l {
+		if i >= 12 {
+			out = append(out, fmt.Sprintf("… %d more lines", len(l)-i))
+			break
+		}
+		if len(s) > 400 {
+			s = s[:400] + fmt.Sprintf("…(%d bytes)", len(s))
+		}
+		out = append(out, s)
+	}
+	return out
 }
 
 func equalLines(a, b []string) bool {
@@ -252,11 +297,24 @@ type runner struct {
 	unkeyed int
 }
 
+func (r *runner) modelOutLines(lines []string) []string {
+	if r.drv == nil {
+		return nil
+	}
+	res, err := r.drv.Run([][]string{lines})
+	if err != nil {
+		fmt.Fprintln(os.Stderr, "driver error:", err)
+		os.Exit(3)
+	}
+	return res[0]
+}
+
 func (r *runner) modelOut(c Case) []string {
 	if r.drv == nil {
 		return nil
 	}
-	res, err := r.drv.Run([][]string{c.Lines()})
+	lines, _, _ := expand(r.comp, c)
+	res, err := r.drv.Run([][]string{lines})
 	if err != nil {
 		fmt.Fprintln(os.Stderr, "driver error:", err)
 		os.Exit(3)
@@ -276,12 +334,12 @@ func findingKey(why string) string {
 
 // fails reports whether the case still shows a failure of the given kind (and, for oracle failures, of the same class).
 func (r *runner) fails(c Case, kind string) bool {
-	impl := safeImpl(r.comp, c)
+	lines, impl, base := expand(r.comp, c)
 	if kind == "oracle" {
-		w := r.comp.Oracle(c, impl)
+		w := r.comp.Oracle(c, base)
 		return w != "" && findingKey(w) == r.wantKey
 	}
-	return !equalLines(impl, r.modelOut(c))
+	return !equalLines(impl, r.modelOutLines(lines))
 }
 
 func (r *runner) shrink(c Case, kind string) Case {
@@ -360,15 +418,15 @@ func (r *runner) record(c Case, kind, why string) {
 	if !r.fails(small, kind) {
 		small = c // the failure does not reproduce on the shrunk case: keep the original
 	}
-	impl := safeImpl(r.comp, small)
+	lines, impl, base := expand(r.comp, small)
 	if kind == "oracle" {
-		if w := r.comp.Oracle(small, impl); w != "" {
+		if w := r.comp.Oracle(small, base); w != "" {
 			why = w
 		}
 	}
 	r.sum.Mismatches = append(r.sum.Mismatches, Mismatch{
 		Kind: kind, Component: r.comp.Name(), Tag: c.Tag, Ops: small.jsonable(),
-		Impl: impl, Model: r.modelOut(small), Why: why,
+		Impl: impl, Model: r.modelOutLines(lines), Why: why, Requests: lines,
 	})
 }
 
@@ -377,10 +435,10 @@ func (r *runner) flush(batch []Case) {
 		return
 	}
 	impls := make([][]string, len(batch))
+	bases := make([][]string, len(batch))
 	lines := make([][]string, len(batch))
 	for i, c := range batch {
-		impls[i] = safeImpl(r.comp, c)
-		lines[i] = c.Lines()
+		lines[i], impls[i], bases[i] = expand(r.comp, c)
 	}
 	var models [][]string
 	if r.drv != nil {
@@ -393,7 +451,7 @@ func (r *runner) flush(batch []Case) {
 	}
 	for i, c := range batch {
 		r.sum.Evaluations++
-		cls := safeClass(r.comp, c, impls[i])
+		cls := safeClass(r.comp, c, bases[i])
 		r.sum.Dist[c.Tag+"/"+cls]++
 		key := c.Key()
 		if !r.seen[key] {
@@ -403,10 +461,10 @@ func (r *runner) flush(batch []Case) {
 				r.sum.NonTrivial++
 			}
 			if len(r.sum.Samples) < 6 && r.sum.Distinct%97 == 1 {
-				r.sum.Samples = append(r.sum.Samples, map[string]any{"ops": c.Lines(), "impl": impls[i], "class": cls})
+				r.sum.Samples = append(r.sum.Samples, map[string]any{"ops": truncLines(lines[i]), "impl": truncLines(impls[i]), "class": cls})
 			}
 		}
-		if why := r.comp.Oracle(c, impls[i]); why != "" {
+		if why := r.comp.Oracle(c, bases[i]); why != "" {
 			r.record(c, "oracle", why)
 			continue
 		}
